@@ -1,5 +1,6 @@
 import Comdex.Lemmas.LendLtv
 import Comdex.Lemmas.LendAccrual
+import Comdex.Lemmas.LendIds
 /-!
 # C08 — Lending books balance and borrowing is bounded by loan-to-value
 
@@ -707,6 +708,235 @@ example :
       = .val 50000000000000000000 10000000000000000000 ∧
     (accrueLend ⟨1, Dec.one, 1700000000, 700000000000000000⟩ 6 100000000000000000 (1700000000 + 31557600)).reward = 1 ∧
     (accrueLend ⟨1, Dec.one, 1700000000, 700000000000000000⟩ 6 100000000000000000 (1700000000 + 31557600)).tracker = 300000000000000000 := by
+  decide
+
+/-! ## The id lists of the pool-asset records (`LendIds`, `BorrowIds`) — what the liquidation sweeps and the interest queries iterate -/
+
+theorem init_ids (cfg : Cfg) (bank : Bank) (prices : List (Nat × Nat)) : IdsS cfg (init cfg bank prices) := by
+  refine { la := List.Pairwise.nil, ba := List.Pairwise.nil, ok := ?_, lr := (fun l hl => nomatch hl), br := (fun b hb => nomatch hb) }
+  intro st hst
+  have hst' : st ∈ initStats cfg := hst
+  unfold initStats at hst'
+  obtain ⟨p, _, hp⟩ := List.mem_flatMap.mp hst'
+  obtain ⟨d, _, rfl⟩ := List.mem_map.mp hp
+  exact ⟨rfl, rfl⟩
+
+theorem apply_ids {cfg : Cfg} {s : State} (op : Op) (c : CoreS cfg s) (i : IdsS cfg s) : IdsS cfg (apply cfg s op) := by
+  unfold apply
+  split
+  · exact step_ids (by assumption) c i
+  · exact i
+
+theorem run_ids {cfg : Cfg} (ops : List Op) {s : State} (c : CoreS cfg s) (i : IdsS cfg s) : IdsS cfg (run cfg s ops) := by
+  induction ops generalizing s with
+  | nil => exact i
+  | cons op ops ih => exact ih (apply_core op c) (apply_ids op c i)
+
+/-- **Id lists are exact** — for every configuration, genesis and history (user messages, hand-overs, bids, auction closes): every
+pool-asset record lists exactly the ids of the lend positions of its pool and asset, and exactly the ids of the borrows whose pair
+lends out its asset from its pool (handed-over borrows included until the auction close deletes them), in creation order. -/
+theorem ids_consistent (cfg : Cfg) (bank : Bank) (prices : List (Nat × Nat)) (ops : List Op) :
+    IdsOk cfg (run cfg (init cfg bank prices) ops) :=
+  (run_ids ops (init_core cfg bank prices) (init_ids cfg bank prices)).ok
+
+/-- **Id lists ascend** — which is what the binary search of `DeleteIDFromAssetStatsMapping` relies on (`delId_binary_search`). -/
+theorem id_lists_ascending (cfg : Cfg) (bank : Bank) (prices : List (Nat × Nat)) (ops : List Op) :
+    ∀ st ∈ (run cfg (init cfg bank prices) ops).stats, Asc st.lendIds ∧ Asc st.borrowIds := by
+  intro st hst
+  have i := run_ids ops (init_core cfg bank prices) (init_ids cfg bank prices)
+  obtain ⟨h1, h2⟩ := i.ok st hst
+  rw [h1, h2]
+  exact ⟨asc_lendIdsOf i.la _ _, asc_borrowIdsOf i.ba _ _⟩
+
+/-- **Removal by binary search is removal** on an ascending list; on an unsorted one it can miss the id (`[5, 3]`, id `3`). -/
+theorem delId_binary_search (ids : List Nat) (h : Asc ids) (k : Nat) : delId ids k = ids.filter (· != k) := delId_eq_filter ids h k
+theorem delId_needs_ascending : delId [5, 3] 3 = [5, 3] := delId_unsorted_misses
+
+/-- **Every live lend position is in exactly the list of its pool and asset**: the record exists, lists the id, and any record that
+lists the id is one of that pool and asset. -/
+theorem lend_listed_exactly (cfg : Cfg) (bank : Bank) (prices : List (Nat × Nat)) (ops : List Op) (l : Lend)
+    (hl : l ∈ (run cfg (init cfg bank prices) ops).lends) :
+    (∃ st ∈ (run cfg (init cfg bank prices) ops).stats, st.pool = l.pool ∧ st.asset = l.asset ∧ l.id ∈ st.lendIds) ∧
+    (∀ st ∈ (run cfg (init cfg bank prices) ops).stats, l.id ∈ st.lendIds → st.pool = l.pool ∧ st.asset = l.asset) := by
+  have i := run_ids ops (init_core cfg bank prices) (init_ids cfg bank prices)
+  have hu : Uniq lid (run cfg (init cfg bank prices) ops).lends := asc_uniq (fun l : Lend => l.id) i.la
+  constructor
+  · obtain ⟨st, hst, h1, h2⟩ := i.lr l hl
+    refine ⟨st, hst, h1, h2, ?_⟩
+    rw [(i.ok st hst).1, h1, h2]
+    unfold lendIdsOf
+    exact List.mem_map.mpr ⟨l, List.mem_filter.mpr ⟨hl, by simp⟩, rfl⟩
+  · intro st hst hk
+    rw [(i.ok st hst).1] at hk
+    obtain ⟨x, hx, hxid, hxp, hxa⟩ := mem_lendIdsOf hk
+    have : x = l := uniq_eq lid hu hx hl (by simp [lid, hxid])
+    subst this
+    exact ⟨hxp.symm, hxa.symm⟩
+
+/-- **Every live borrow is in exactly the list of its pair's out pool and asset** (so `GetBorrows`, the list the liquidation sweeps of
+both generations walk, reaches it). -/
+theorem borrow_listed_exactly (cfg : Cfg) (bank : Bank) (prices : List (Nat × Nat)) (ops : List Op) (b : Borrow)
+    (hb : b ∈ (run cfg (init cfg bank prices) ops).borrows) :
+    (∃ st ∈ (run cfg (init cfg bank prices) ops).stats, cfg.pairOut b.pairId = some (st.pool, st.asset) ∧ b.id ∈ st.borrowIds) ∧
+    (∀ st ∈ (run cfg (init cfg bank prices) ops).stats, b.id ∈ st.borrowIds → cfg.pairOut b.pairId = some (st.pool, st.asset)) := by
+  have i := run_ids ops (init_core cfg bank prices) (init_ids cfg bank prices)
+  have hu : Uniq bid (run cfg (init cfg bank prices) ops).borrows := asc_uniq (fun b : Borrow => b.id) i.ba
+  constructor
+  · obtain ⟨p, a, hpa, st, hst, h1, h2⟩ := i.br b hb
+    refine ⟨st, hst, by rw [hpa, h1, h2], ?_⟩
+    rw [(i.ok st hst).2, h1, h2]
+    unfold borrowIdsOf
+    exact List.mem_map.mpr ⟨b, List.mem_filter.mpr ⟨hb, by simp [hpa]⟩, rfl⟩
+  · intro st hst hk
+    rw [(i.ok st hst).2] at hk
+    obtain ⟨x, hx, hxid, hxp⟩ := mem_borrowIdsOf hk
+    have : x = b := uniq_eq bid hu hx hb (by simp [bid, hxid])
+    subst this
+    exact hxp
+
+/-- **No dangling id**: an id in a list is the id of a live position of that record's pool and asset / out pool and asset. -/
+theorem no_dangling_ids (cfg : Cfg) (bank : Bank) (prices : List (Nat × Nat)) (ops : List Op) :
+    ∀ st ∈ (run cfg (init cfg bank prices) ops).stats,
+      (∀ k ∈ st.lendIds, ∃ l ∈ (run cfg (init cfg bank prices) ops).lends, l.id = k ∧ l.pool = st.pool ∧ l.asset = st.asset) ∧
+      (∀ k ∈ st.borrowIds, ∃ b ∈ (run cfg (init cfg bank prices) ops).borrows, b.id = k ∧ cfg.pairOut b.pairId = some (st.pool, st.asset)) := by
+  intro st hst
+  have i := run_ids ops (init_core cfg bank prices) (init_ids cfg bank prices)
+  obtain ⟨h1, h2⟩ := i.ok st hst
+  exact ⟨fun k hk => mem_lendIdsOf (by rw [← h1]; exact hk), fun k hk => mem_borrowIdsOf (by rw [← h2]; exact hk)⟩
+
+/-! ## Life after the hand-over: bids and the close of the second-generation auction -/
+
+/-- the principal totals and the lent total of a record are those of the record with the same key before -/
+def SameTotals (ss ss' : List Stats) : Prop :=
+  ∀ st' ∈ ss', ∃ st ∈ ss, st.pool = st'.pool ∧ st.asset = st'.asset ∧ st.totalLend = st'.totalLend ∧
+    st.totalBorrowed = st'.totalBorrowed ∧ st.totalStable = st'.totalStable
+
+theorem sameTotals_mod (ss : List Stats) (p a : Nat) (f : Stats → Stats) (hf : IdsOnly f) : SameTotals ss (modStats ss p a f) := by
+  intro st' hst'
+  obtain ⟨s0, hs0, rfl⟩ := mem_modStats hst'
+  refine ⟨s0, hs0, ?_⟩
+  by_cases hc : s0.pool = p ∧ s0.asset = a
+  · rw [if_pos hc]; obtain ⟨h1, h2, h3, h4, h5⟩ := hf s0; exact ⟨h1.symm, h2.symm, h3.symm, h4.symm, h5.symm⟩
+  · rw [if_neg hc]; exact ⟨rfl, rfl, rfl, rfl, rfl⟩
+
+theorem SameTotals.trans {a b c : List Stats} (h1 : SameTotals a b) (h2 : SameTotals b c) : SameTotals a c := by
+  intro st hst
+  obtain ⟨s1, hs1, e1, e2, e3, e4, e5⟩ := h2 st hst
+  obtain ⟨s0, hs0, f1, f2, f3, f4, f5⟩ := h1 s1 hs1
+  exact ⟨s0, hs0, by omega, by omega, by omega, by omega, by omega⟩
+
+theorem SameTotals.refl (a : List Stats) : SameTotals a a := fun st hst => ⟨st, hst, rfl, rfl, rfl, rfl, rfl⟩
+
+theorem sameTotals_addTotalInterest (ss : List Stats) (p a : Nat) (d : Int) : SameTotals ss (addTotalInterest ss p a d) :=
+  sameTotals_mod ss p a _ (fun _ => ⟨rfl, rfl, rfl, rfl, rfl⟩)
+theorem sameTotals_delBorrowId (ss : List Stats) (p a k : Nat) : SameTotals ss (delBorrowId ss p a k) :=
+  sameTotals_mod ss p a _ (idsOnly_delBorrow k)
+
+/-- what an accepted closing bid does to the books (see `auctionClose_books`) -/
+def CloseBooks (cfg : Cfg) (s s' : State) (k : Nat) : Prop :=
+  ∃ b pair, getBorrow s.borrows k = some b ∧ b.liq = true ∧ cfg.pair? b.pairId = some pair ∧
+    s'.borrows = delBorrow s.borrows k ∧ getBorrow s'.borrows k = none ∧ getLocked s'.locked k = none ∧
+    s'.lends = s.lends ∧ s'.lendCtr = s.lendCtr ∧ s'.borrowCtr = s.borrowCtr ∧ SameTotals s.stats s'.stats ∧
+    s'.stats = delBorrowId (if Dec.truncateInt (b.interest - b.reserveInt) > 0
+                            then addTotalInterest s.stats pair.outPool pair.assetOut (Dec.truncateInt (b.interest - b.reserveInt))
+                            else s.stats) pair.outPool pair.assetOut k
+
+/-- **The auction close on the books**: an accepted closing bid deletes the handed-over borrow and its locked vault; no lend position
+changes (the position was debited at the hand-over and stays debited); no published principal or lent total changes (they were
+reduced at the hand-over); the lenders' share of the accrued interest, `⌊interest − reserve share⌋`, is added to
+`totalInterestAccumulated` of the debt pool's record. A partial fill changes nothing but balances (`auctionBid_books`). -/
+theorem auctionClose_books {cfg : Cfg} {s s' : State} {u k : Nat} {paid recv left topUp : Int}
+    (h : auctionClose cfg s u k paid recv left topUp = .ok s') : CloseBooks cfg s s' k := by
+  unfold auctionClose at h
+  invert h
+  all_goals
+    unfold CloseBooks
+    refine ⟨_, _, ‹getBorrow s.borrows k = some _›, ‹Borrow.liq _ = true›, ‹cfg.pair? _ = some _›, rfl, find_del bid _ k, ?_, rfl, rfl, rfl, ?_, ?_⟩
+    · unfold getLocked delLocked
+      apply List.find?_eq_none.mpr
+      intro x hx
+      have := (List.mem_filter.mp hx).2
+      simpa using this
+    · first
+      | exact (sameTotals_addTotalInterest _ _ _ _).trans (sameTotals_delBorrowId _ _ _ _)
+      | exact sameTotals_delBorrowId _ _ _ _
+    · simp [*]
+
+theorem auctionBid_books {cfg : Cfg} {s s' : State} {u k : Nat} {paid recv : Int} (h : auctionBid cfg s u k paid recv = .ok s') :
+    s'.lends = s.lends ∧ s'.borrows = s.borrows ∧ s'.stats = s.stats ∧ s'.resv = s.resv ∧ s'.locked = s.locked := by
+  unfold auctionBid at h
+  simp only [bind, Except.bind, pure, Except.pure] at h
+  repeat' (split at h <;> try cases h)
+  all_goals exact ⟨rfl, rfl, rfl, rfl, rfl⟩
+
+/-- **The close needs the lend position of a cross-pool borrow**: `MsgCloseDutchAuctionForBorrow` reads the collateral's pool from the
+lend position to send the bridged transit asset back; when the hand-over deleted that position (`UpdateLockedBorrows` deletes it as
+soon as `AmountIn − pledge ≤ 0`) no closing bid can ever succeed, whatever the amounts and whoever bids. -/
+theorem auctionClose_needs_lend {cfg : Cfg} {s : State} {k : Nat} {b : Borrow} (hb : getBorrow s.borrows k = some b) (hbr : b.bridged > 0)
+    (hl : getLend s.lends b.lendingId = none) (u : Nat) (paid recv left topUp : Int) :
+    (auctionClose cfg s u k paid recv left topUp).toBool = false := by
+  cases h : auctionClose cfg s u k paid recv left topUp with
+  | error e => rfl
+  | ok s' =>
+    exfalso
+    unfold auctionClose at h
+    invert h
+    all_goals
+      have e := ‹getBorrow s.borrows k = some _›
+      rw [hb] at e; cases e
+      first
+      | (have e2 := ‹getLend s.lends _ = some _›; rw [hl] at e2; cases e2)
+      | exact absurd hbr ‹¬ _›
+
+/-- cross-pool world: assets A = 1, B = 2, T = 3 (cTokens 4, 5, 6); pool 1 {A (second transit asset), T (first transit asset)}, pool 2 {B, T, A};
+pair 1 = (A → B of pool 2), cross-pool; liquidation penalty 5 % -/
+def cfgX : Cfg :=
+  { assets := [⟨1, 1⟩, ⟨2, 1⟩, ⟨3, 1⟩, ⟨4, 1⟩, ⟨5, 1⟩, ⟨6, 1⟩],
+    rates := [⟨1, 500000000000000000, 0, 4, false, false, 50000000000000000, 0⟩, ⟨2, 500000000000000000, 0, 5, false, false, 50000000000000000, 0⟩,
+              ⟨3, 800000000000000000, 0, 6, false, false, 50000000000000000, 0⟩],
+    pools := [⟨1, 101, [⟨1, 3, 1000000000000000000000000000000000000⟩, ⟨3, 2, 1000000000000000000000000000000000000⟩]⟩,
+              ⟨2, 102, [⟨2, 1, 1000000000000000000000000000000000000⟩, ⟨3, 2, 1000000000000000000000000000000000000⟩, ⟨1, 3, 1000000000000000000000000000000000000⟩]⟩],
+    pairs := [⟨1, 1, 2, true, 2, false⟩],
+    a2p := [⟨1, 1, [1]⟩],
+    apps := [(1, true)] }
+def bankX : Bank := [((1, 1), 1000), ((101, 3), 1000), ((102, 2), 1000), ((7, 2), 1000)]
+def pricesX : List (Nat × Nat) := [(1, 1000000), (2, 1000000), (3, 1000000)]
+/-- user 1 lends 100 A and pledges ALL of it for a cross-pool loan of 30 B (50 T are bridged to pool 2); the borrow is handed over: the
+lend position is deleted (`AmountIn − pledge = 0`) -/
+def opsX : List Op := [.lend 1 1 1 100 1 1 0, .borrow 1 1 1 false 4 100 2 30 .err .err, .handover 1 0]
+
+/-- **Witness (stuck auction)**: every step is accepted; afterwards the borrow is under liquidation with 50 T bridged and its lend
+position is gone — by `auctionClose_needs_lend` no bid can close the auction (here: the bid that pays the whole target is refused),
+the collateral stays in the auction module and the 50 T stay in pool 2. -/
+theorem auctionClose_stuck_counterexample :
+    allAccepted cfgX (init cfgX bankX pricesX) opsX = true ∧
+    (run cfgX (init cfgX bankX pricesX) opsX).lends = [] ∧
+    ((run cfgX (init cfgX bankX pricesX) opsX).borrows.map fun b => (b.id, b.liq, b.bridged)) = [(1, true, 50)] ∧
+    ((run cfgX (init cfgX bankX pricesX) opsX).locked.map fun k => (k.borrowId, k.target)) = [(1, 31)] ∧
+    (step cfgX (run cfgX (init cfgX bankX pricesX) opsX) (.auctionClose 7 1 31 100 0 0)).toBool = false := by decide
+
+/-- `cfgH` with a liquidation penalty of 10 % on both assets -/
+def cfgP : Cfg := { cfgH with rates := [⟨1, 500000000000000000, 0, 3, false, false, 100000000000000000, 0⟩,
+                                        ⟨2, 500000000000000000, 0, 4, false, false, 100000000000000000, 0⟩] }
+def bankP : Bank := [((1, 1), 1000), ((101, 2), 1000), ((99, 1), 10), ((7, 2), 100)]
+/-- lend 100 A; borrow 10 B against 60 cA; 2.5 B of interest accrue, 1.5 of it the reserve's; hand-over (target 10 + 1 penalty); a
+partial fill by account 7 (4 B for 20 A); its closing bid (7 B for 30 A, 10 A back to the owner) -/
+def opsC : List Op :=
+  [.lend 1 1 1 100 1 1 0, .borrow 1 1 1 false 3 60 2 10 .err .err, .calcAll 1 [(1, .val 2500000000000000000 1500000000000000000)] [(1, 0)],
+   .handover 1 2500000000000000000, .bid 7 1 4 20, .auctionClose 7 1 7 30 10 0]
+
+/-- non-vacuity (`auctionClose_books`, `auctionBid_books`, `ids_consistent` with a deletion, the reserve records): every step of `opsC`
+is accepted; afterwards the borrow, its id and its locked vault are gone, the lend keeps 40 (principal and availability), the lent and
+borrowed totals are 40 / 0, one cToken of B is minted into `totalInterestAccumulated` (⌊2.5 − 1.5⌋), the reserve has received the
+penalty 1 and the whole token of its interest share 1 — recorded as such, both halves ⌊1/2⌋ + ⌊1/2⌋ = 0 — and holds 2 B -/
+example :
+    allAccepted cfgP (init cfgP bankP pricesH) opsC = true ∧
+    ((run cfgP (init cfgP bankP pricesH) opsC).stats.map fun st => (st.asset, st.totalLend, st.totalBorrowed, st.totalInterest)) = [(1, 40, 0, 0), (2, 0, 0, 1)] ∧
+    ((run cfgP (init cfgP bankP pricesH) opsC).stats.map fun st => (st.lendIds, st.borrowIds)) = [([1], ([] : List Nat)), ([], [])] ∧
+    ((run cfgP (init cfgP bankP pricesH) opsC).lends.map fun l => (l.amountIn, l.avail)) = [(40, 40)] ∧
+    (run cfgP (init cfgP bankP pricesH) opsC).borrows = [] ∧ (run cfgP (init cfgP bankP pricesH) opsC).locked = [] ∧
+    ((run cfgP (init cfgP bankP pricesH) opsC).resv.map fun r => (r.asset, r.reserve, r.buyback, r.inPenalty, r.inRepay)) = [(2, 0, 0, 1, 1)] ∧
+    (run cfgP (init cfgP bankP pricesH) opsC).bank.get 99 2 = 2 := by
   decide
 
 end Comdex.C08
